@@ -11,9 +11,9 @@ retries with reverse rules.
 """
 from vdrive import searchlib
 from vdrive.core import fp
-from vmon import base, m_spec
+from vmon import base, clock as vclock, m_spec, rng as vrng
 from vref import words as rw
-from vuniv import gen, intuniv, words
+from vuniv import gen, intuniv, table, words
 
 base.add_deps_path()
 import icontract  # noqa: E402
@@ -25,23 +25,35 @@ RULE = (
     "expand_verified() on the returned specification; judged: it returns, same root, terms equal brute "
     "force to N, C02 well-formedness of every specification built on the way, no verified class with a "
     "pack left, no rule object shared with the original, original's rules and terms unchanged. "
+    "The prefix-verification packs nest (the pack offered for a verified class verifies again, up to two "
+    "further levels). case kind table = an integer universe as strategies in which 1-3 verified classes "
+    "can be expanded only through a reverse rule (forward attempt ends in SpecificationNotFound, then the "
+    "retry), half of them with an original specification that already contains a reverse rule; judged "
+    "there: returns, nothing left to expand, C02 structure, no shared rule objects. "
     "non-trivial = >= 2 verified classes expanded or a verified class inside an equivalence path / at "
-    "the root; distinct = case fingerprints"
+    "the root; table: at least one retry with reverse rules; distinct = case fingerprints"
 )
 LEVEL_TEXT = "exploration: snapshot/postcondition contract on the real expand_verified plus the structural monitor on every intermediate specification"
-LEVEL_NOTE = "verified classes are those of the universe's prefix-verification strategy, whose pack is the atom-verified word pack"
+LEVEL_NOTE = "verified classes are those of the word universe's prefix-verification strategy (packs nest up to two levels before the atom-verified word pack) and of integer universes built so that only a reverse rule reaches them (no counting semantics there: structure only)"
 TECHNIQUE = "runtime contract (icontract snapshot + postcondition) with brute-force enumeration and identity comparison"
 ASSUMPTIONS = ["R-words; the C02 monitor's assumptions"]
 N = {"quick": 6, "thorough": 8}
 FLOORS = {
     "quick": {"nontrivial": 200, "counters": {"expand.calls_checked": 250, "expand.classes_expanded": 300,
                                                "spec.specs_examined": 600,
-                                               "expand.verified_behind_equivalence_path": 15}},
+                                               "expand.verified_behind_equivalence_path": 15,
+                                               "expand.calls_with_nested_verification": 80,
+                                               "expand.retries_with_reverse": 250,
+                                               "expand.calls_with_two_retries": 70,
+                                               "expand.originals_containing_a_reverse_rule": 70}},
     "thorough": {"nontrivial": 2000, "counters": {"expand.calls_checked": 3600, "expand.classes_expanded": 7000,
-                                                   "expand.retries_with_reverse": 1}},
+                                                   "expand.retries_with_reverse": 4000,
+                                                   "expand.calls_with_nested_verification": 1200,
+                                                   "expand.originals_containing_a_reverse_rule": 1000}},
 }
 CASE_TIMEOUT = {"quick": 90, "thorough": 180}
 SIZES = {"quick": 500, "thorough": 8000}
+TABLES = {"quick": 300, "thorough": 5000}
 _STATE = {"N": 6, "installed": False}
 
 
@@ -58,9 +70,10 @@ def all_rule_objects(spec):
 
 def original_digest(self):
     n_max = _STATE["N"]
+    counting = isinstance(self.root, words.WC)  # integer universes have no counting semantics
     return {
         "rule_ids": {c: id(r) for c, r in self.rules_dict.items()},
-        "terms": [rw.norm(self.get_terms(n)) for n in range(n_max + 1)],
+        "terms": [rw.norm(self.get_terms(n)) for n in range(n_max + 1)] if counting else None,
         "objs": [id(r) for r in all_rule_objects(self)],
     }
 
@@ -99,7 +112,7 @@ def expansion_ok(self, result, OLD):
     if any(now_ids.get(c) != i for c, i in old_ids.items()):
         cx.violation("C19:original-rules-changed", "a rule of the original specification was replaced", None, raise_=False)
         return False
-    for n in range(n_max + 1):
+    for n in range(n_max + 1 if OLD.digest["terms"] is not None else 0):
         if rw.norm(self.get_terms(n)) != OLD.digest["terms"][n]:
             cx.violation("C19:original-terms-changed", f"original's terms at size {n} changed", None, raise_=False)
             return False
@@ -149,6 +162,8 @@ def gen_cases(tier, seed):
         if rw.is_empty(case["cls"]):
             continue
         case["pack"]["ver"] = rng.choice(("prefix1", "prefix2", "prefix1"))
+        # nested verification: the pack offered for a verified class verifies again
+        case["pack"]["nest"] = intuniv.rng_for(seed, "C19/nest", i).choice((0, 0, 1, 1, 2))
         if rng.random() < 0.5:
             case["pack"]["sym"] = True
             case["pack"]["inferral"] = rng.choice((["minimise"], ["rename", "minimise"], ["merge"], ["deadstat", "rename"]))
@@ -161,6 +176,56 @@ def gen_cases(tier, seed):
         case.update(id=produced, N=N[tier])
         produced += 1
         yield case
+    yield from gen_table_cases(tier, seed)
+
+
+def gen_table_cases(tier, seed):
+    for k in range(TABLES[tier]):
+        rng = intuniv.rng_for(seed, "C19/table", k)
+        tb = table.complement_universe(rng)
+        yield {"id": f"t{k}", "kind": "table", "table": tb,
+               "db": rng.choice(("base", "forget", "forest", "forest")) if not tb["via_reverse"] else "forest",
+               "rng_seed": rng.randrange(10 ** 6), "N": N[tier]}
+
+
+def run_table(case):
+    """Integer universe in which a verified class can only be expanded through a reverse
+    rule (SpecificationNotFound on the forward attempt, then the retry)."""
+    from comb_spec_searcher import CombinatorialSpecificationSearcher
+    from comb_spec_searcher.exception import SpecificationNotFound
+    from comb_spec_searcher.strategies.rule import ReverseRule
+
+    cx = base.ctx()
+    tb = case["table"]
+    packs = table.all_packs(tb)
+    m_spec.set_context(packs=packs, judge_productivity=True, truth_empty=None)
+    try:
+        vrng.set_rng(vrng.ScriptedRNG(case["rng_seed"]))
+        vclock.install(vclock.VirtualClock(), vclock.BudgetClock(2))
+        s = CombinatorialSpecificationSearcher(table.Lab(0), packs[0], ruledb=gen.build_db(case["db"]))
+        try:
+            spec = s.auto_search()
+        except SpecificationNotFound:
+            cx.violation("C19:table-universe-without-specification",
+                         "the complement universe is built to have a specification", None)
+        verified = list(spec.unexpanded_verified_classes())
+        if any(isinstance(r, ReverseRule) for r in all_rule_objects(spec)):
+            cx.count("expand.originals_containing_a_reverse_rule")
+        before = cx.counters.get("expand.retries_with_reverse", 0)
+        new = spec.expand_verified()  # snapshot + postcondition; m_spec on every specification built
+        retries = cx.counters.get("expand.retries_with_reverse", 0) - before
+        if retries:
+            cx.count("expand.calls_with_retry")
+        if retries >= 2:
+            cx.count("expand.calls_with_two_retries")
+        n_rev = sum(isinstance(r, ReverseRule) for r in all_rule_objects(new))
+        if retries and not n_rev:
+            cx.violation("C19:retry-without-reverse-rule",
+                         "the retry with reverse rules returned a specification without any reverse rule", None)
+        cx.see("db", case["db"])
+        return {"nontrivial": retries >= 1 and len(verified) >= 1, "fingerprint": fp(case)}
+    finally:
+        m_spec.set_context()
 
 
 def _truth_empty(c):
@@ -172,10 +237,13 @@ def _truth_empty(c):
 def run_case(case):
     from comb_spec_searcher.strategies.rule import EquivalencePathRule, VerificationRule
 
+    if case.get("kind") == "table":
+        return run_table(case)
+
     cx = base.ctx()
     _STATE["N"] = case["N"]
     pack = gen.build_pack(case["pack"])
-    m_spec.set_context(packs=[pack, words.make_pack({"ver": "atom"})], judge_productivity=True,
+    m_spec.set_context(packs=[pack] + words.offered_packs(case["pack"]), judge_productivity=True,
                        truth_empty=_truth_empty)
     try:
         res = searchlib.run_search(case)
@@ -192,6 +260,10 @@ def run_case(case):
         new = spec.expand_verified()  # snapshot + postcondition; m_spec on every spec built
         expanded = cx.counters.get("expand.classes_expanded", 0) - before
         cx.see("db", case["db"])
+        if expanded > len(verified):
+            # classes verified by the pack offered for a verified class were expanded too
+            cx.count("expand.nested_verified_classes_expanded", expanded - len(verified))
+            cx.count("expand.calls_with_nested_verification")
         if at_root:
             cx.count("expand.verified_root")
         if in_path:
